@@ -4,7 +4,7 @@
    parser as a whole, libyaml, serde, clap, the console reporters), stack depth and termination in general - these are
    searched for by fuzzing (tools/gv/props/c08.py) and watched by the panic-site inventory. *)
 From GV.Model Require Import SEval Check Strat.
-From GV.Proofs Require Import NoPanicProps.
+From GV.Proofs Require Import NoPanicProps ValueInv.
 
 Theorem C08_match_value_no_panic : forall cmpf l r site,
   (forall s, cmpf l r <> Panic s) -> match_value cmpf l r <> Panic site.
@@ -115,3 +115,25 @@ Print Assumptions C08_no_panic_instance.
 Theorem C08_loaded_documents_are_key_consistent : forall v p, wfv (annotate p v) = true.
 Proof. exact annotate_wfv. Qed.
 Print Assumptions C08_loaded_documents_are_key_consistent.
+
+(* ---- no panic site at all ---- *)
+
+(* the site left open above is unreachable when the document and the literals of the rules file are key-consistent (ValueInv.v:
+   every value held by a scope, a memo, a binding or a query result is key-consistent; a `keys` filter keeps only members of the key
+   list of the struct it walks) *)
+Theorem C08_keys_filter_lookup_is_safe : forall re conv prog, vwf_prog prog = true ->
+  forall fuel doc, wfv doc = true -> eval_file re conv prog fuel doc <> Panic P_map_key_missing.
+Proof. exact eval_file_key_lookup_safe. Qed.
+Print Assumptions C08_keys_filter_lookup_is_safe.
+
+(* for a parser-shaped rules file whose literals are key-consistent and a key-consistent document, the modelled evaluator reaches
+   NO panic site, whatever the fuel and the oracles *)
+Theorem C08_evaluation_never_panics : forall re conv prog fuel doc p,
+  pwf_prog prog = true -> vwf_prog prog = true -> wfv doc = true -> eval_file re conv prog fuel doc <> Panic p.
+Proof. exact eval_file_never_panics. Qed.
+Print Assumptions C08_evaluation_never_panics.
+
+(* the value invariant holds at every entry point of the interpreter, at every fuel *)
+Theorem C08_values_stay_key_consistent : forall re conv prog, vwf_prog prog = true -> forall n, ev_safe (evalN re conv prog n).
+Proof. exact evalN_safe. Qed.
+Print Assumptions C08_values_stay_key_consistent.
